@@ -1831,7 +1831,8 @@ def tt_loglikelihood(
 
     assert isinstance(Model, ttb.ktensor), "Model must be a ktensor"
 
-    Model.normalize(weight_factor=0, normtype=1)
+    # Work on a copy: the caller's model is not modified
+    Model = Model.copy().normalize(weight_factor=0, normtype=1)
     if isinstance(Data, ttb.sptensor):
         xsubs = Data.subs
         A = Model.factor_matrices[0][xsubs[:, 0], :]
